@@ -127,3 +127,26 @@ Definition mon_rejected_seed (c : scase) : bool :=
 
 Definition mons (l : list scase) :=
   mon_idx [mon_in_scope; mon_shape; mon_req_iff_pp; mon_rejected_seed] l.
+
+(* ---- the archiver's side: what ARRIVES at the origin --------------------------------------- *)
+(* One case = one pre-processed item (its request attached) given to the REAL archiver stage
+   (archiver.Start, worker, archive(), the real WARC/HTTP client) against a scripted local
+   origin; the origin logs every request it receives.  The archiver must send exactly the
+   attached request: a 3xx answer is handed on as a response (the redirect target becomes a
+   child that goes through preprocess and its filters), never followed by the client. *)
+Record arcase := ARC {
+  a_cfg : opcfg;                 (* the operator's lists the run is judged against *)
+  a_expected : list bytes;       (* the URLs of the requests attached to the items sent in *)
+  a_arrivals : list uview        (* origin log: scheme, Host header, host name, URL, regex answers *)
+}.
+
+Definition a_diff_case (c : arcase) : bool :=
+  negb (bytes_list_eqb (a_expected c) (map u_text (a_arrivals c))).
+Definition adiffs (l : list arcase) := bad_idx a_diff_case l.
+
+(* the same predicates as monitors 0 and 1 of the scope driver, on the origin's log *)
+Definition a_mon_in_scope (c : arcase) : bool :=
+  forallb (fun v => in_scope (gen_cfg (a_cfg c)) (u_host v) (u_text v) (u_bits v)) (a_arrivals c).
+Definition a_mon_shape (c : arcase) : bool :=
+  forallb (fun v => shape_ok (colon (u_scheme v)) (u_hostname v)) (a_arrivals c).
+Definition amons (l : list arcase) := mon_idx [a_mon_in_scope; a_mon_shape] l.
